@@ -48,6 +48,12 @@ CHECKS = {
   text='Thousands of literal spellings (integers up to 40 digits, decimals with up to 40 fraction digits, exponents -400..400 in e/E forms, underscores, leading/trailing zeros, integers above 2^53 written with an exponent, spellings halfway between two doubles, hex-float strings with 1..46 hex digits and exponents -1100..1100, rational(p, q), digits(m, e, b) with b in {2,3,7,10,16}, negated zeros) are written into real source files as one-line functions, compiled by the real front end and called: under REAL the value must be exactly the number spelled (sign of zero included); through round(<literal>) under narrow contexts it must be that number rounded once (no second rounding through Python\'s float); the bare literal under a narrow context must be the exact value or it rounded once.',
   ref='DESIGN.md 2/C06',
   note='Trusted: the 30-line spelling parser in vf/checks/c06.py and vf/oracle/rnd.py. Documented language semantics (E-Val): a bare literal is not rounded by the active context, so "rounded once" is observed through round(). Known finding F4 (float literals pre-rounded by Python) is reported as KNOWN-FINDING; every other mechanism still fails the check.'),
+ 'C19': dict(
+  technique='runtime monitors on strategies.sites / refusals, strategy(f, where=...), the reported EditLog and Function.forward(cursor).resolve() over generated programs whose statements carry unique provenance markers, plus random strategy histories',
+  category='exploration',
+  text='Generated programs (2-6 top-level statements, nesting up to 3; rounding blocks over 12 contexts incl. refused, bound and cast blocks, for loops over ranges / lists / a run-time bound, while loops incl. a call in the condition, if / if-else, context containers, calls in plain, nested and lazy positions, statements matching two user Rewrite patterns) in which every statement introduces a unique identifier or literal are decorated by the real @fp.fpy. For each of 18 aimable strategy configurations (unfold_special, unfold_neg_zero, unfold_overflow +early, float_to_fixed, rescale_fixed, insert_round x2, split PEEL/STRICT, unroll_for PEEL/STRICT, unroll_while x2, inline x2, Rewrite stmt / expr pattern): (A) every syntactic candidate (my definition: every for, every while, every pure rounding block, every call of an FPy function) must be a listed site or an explained refusal, never both, no duplicates; (B) where=j must succeed for every listed j, report edits that touch exactly the statement of sites[j], change the program, agree with where=sites[j] when no other site lies beneath it, leave every statement outside the edit textually unchanged exactly once in the result and forward it to itself, and forward the site to statements carrying its own marker; (C) where=-1, k, k+3 must be rejected; (D) where=None must report exactly the outermost listed sites and leave the rest unchanged; (E) statement, region and expression cursors of the first program are forwarded across 3 (8) random histories of 1-4 strategy applications (where = None / index / listed cursor / a cursor of the FIRST program rebased by the strategy): forwarding must raise TransformReferenceError or resolve to statements that contain the original statement\'s own marker and no marker foreign to it (expressions: the identical expression text); any other exception of a listing, a rewrite or a forward is a violation.',
+  ref='DESIGN.md 2/C19',
+  note='Trusted: the marker discipline (no strategy invents identifiers of the form mk_K_/lp_K_/wh_K_ or literals 1000..1999). A refused forward is always acceptable and counted. insert_round has few sites in these programs (no pinned argument formats); its listing / refusal accounting and crash freedom are what is observed there.'),
  'C20': dict(
   technique='exhaustive operand-pair sweep of the real library functions under small float contexts, recombined with Fraction arithmetic; preconditions evaluated by the oracle',
   category='exploration',
